@@ -39,7 +39,10 @@ EditScenarios(maxLen) == {[kind |-> k, algo |-> a, prog |-> p] : k \in Kinds, a 
 Src == {"absent", "right256", "right512", "wrong"}
 Variants == {"canon", "reordered", "unknown_field"}
 HdrMT == {"absent", "right", "wrong"}
-Via == {"new", "reg", "ocidir"}
+\* new: manifest.New; reg / ocidir: RegClient.ManifestGet; regplat: ManifestGet of a tag that is an index with
+\* WithManifestPlatform (the child is fetched for the digest of the index entry, logged as `desc`); regdata:
+\* ManifestGet with a descriptor that carries the body as inline data
+Via == {"new", "reg", "ocidir", "regplat", "regdata"}
 FetchScenarios ==
   {[kind |-> k, variant |-> v, desc |-> d, ref |-> r, hdr |-> h, hdrmt |-> m, via |-> via] :
      k \in Kinds, v \in Variants, d \in Src, r \in Src, h \in Src, m \in HdrMT, via \in Via}
